@@ -384,7 +384,8 @@ theorem xMember_ok (name body : Bytes) (h0 : (0 : UInt8) ∉ name) (hs : body.le
   obtain ⟨hl, hn⟩ := xName_ok name h0
   exact { hdr := { nameLen := hl, nameNul := hn, linkLen := by simp [xHdr], linkNul := by simp [xHdr],
                    unameLen := by simp [xHdr], unameNul := by simp [xHdr], gnameLen := by simp [xHdr], gnameNul := by simp [xHdr],
-                   mode := by simp [xHdr], uid := by simp [xHdr], gid := by simp [xHdr], size := hs, mtime := by simp [xHdr] },
+                   mode := by show 0 < numBound .ustar 8; decide, uid := by show 0 < numBound .ustar 8; decide, gid := by show 0 < numBound .ustar 8; decide,
+                   size := by simpa [xHdr, numBound] using hs, mtime := by show 0 < numBound .ustar 12; decide },
           size := rfl }
 
 end Nfpm.Tar
